@@ -4,6 +4,7 @@ open Conv
      schema   comma list of max definition levels (hex; 0 = required column)
      sorting  comma list of  <col>:<desc>:<nullsfirst>   (col decimal, flags 0/1)
      ops      '/' separated:  W<rows> (Value path)  T<rows> (typed path)  S<i>:<j>  P
+              C<k> (Page of column k alone: the column-level API)
               rows '|' separated, cells ';' separated:  i<hex Z>  x<hex bytes>  n<hex level>
    answer:  <logical rows>#<rows read from the pages>#<less matrix>#<comparator sign matrix>
      rows '|' separated, cells ';' separated: i<hex>@<level> x<hex>@<level> n@<level> *)
@@ -36,6 +37,7 @@ let op_of_tok t =
             | [i; j] -> Model.OSwap (nat_of_int (int_of_string i), nat_of_int (int_of_string j))
             | _ -> failwith "swap")
   | 'P' -> Model.OPage
+  | 'C' -> Model.OPageCol (nat_of_int (int_of_string rest))
   | _ -> failwith "op kind"
 
 let tok_of_cell (v, d) =
@@ -60,6 +62,20 @@ let () =
         let mat f m = if m = [] then "_" else String.concat "|" (List.map (fun r -> String.concat "" (List.map f r)) m) in
         tok_of_rows rs ^ "#" ^ tok_of_rows prs ^ "#" ^ mat tok_of_bool less ^ "#" ^ mat sign cm
     | _ -> failwith "c10.run args")
+
+(* c10.readat <schema> <sorting> <ops> <col> <off> <n>     ColumnBuffers()[col].ReadValuesAt(values[:n], off)
+   after the history (schema, sorting, ops as for c10.run; col, off, n decimal)
+   answer: the cells read, ';' separated ("_" when none) *)
+let () =
+  register "c10.readat" (function
+    | [schema; sorting; ops; k; off; n] ->
+        let schema = list_of_tok n_of_hex schema in
+        let sorting = list_of_tok sortcol_of_tok sorting in
+        let ops = if ops = "_" then [] else List.map op_of_tok (String.split_on_char '/' ops) in
+        let nat t = nat_of_int (int_of_string t) in
+        let cs = Model.c10_read_at schema sorting ops (nat k) (nat off) (nat n) in
+        if cs = [] then "_" else String.concat ";" (List.map tok_of_cell cs)
+    | _ -> failwith "c10.readat args")
 
 (* c10.rep <maxdef> <nullsfirst> <descending> <ops>      one repeated column
      ops '/' separated:  W<values>  S<i>:<j>  P ;  values ';' separated  <rep>.<def>.<i<hex>|x<hex>|n>
